@@ -483,3 +483,72 @@ Proof.
       rewrite Z.add_0_r in Hq'. auto 10.
     + rewrite nsg_tags. cbn [s_ncalls]. lia.
 Qed.
+
+(* ---------------------------------------------------------------- AssembleWithContext *)
+(* a segment consistent with (S, i): it carries S[o, o+n) *)
+Definition seg_ok (S : list Z) (i : Z) (g : segment) (o n : Z) : Prop :=
+  g_force g = false /\ g_bytes g = sub S o n /\ 0 <= o /\ 0 <= n /\ o + n <= zlen S /\
+  (g_fin g = true -> o + n = zlen S) /\
+  (if g_syn g then sadd (g_seq g) 1 else g_seq g) = sq i o /\ (g_syn g = true -> o = 0).
+
+(* a SYN makes the start known *)
+Definition gnote (g : gst) (syn : bool) : gst :=
+  match g with
+  | GLive None false => if syn then GLive (Some (0, 0)) false else g
+  | _ => g
+  end.
+
+Lemma asm_body_ok : forall S i c s evn g kn en o n,
+  zlen S < HIS -> ginv c S i (GLive kn en) s -> seg_ok S i g o n ->
+  exists st' ev g',
+    asm_body fullv s evn g = (st', evn ++ ev, false) /\
+    gevs S c (limits_on c) (s_ncalls s) (gnote (GLive kn en) (g_syn g)) ev g' /\ ginv c S i g' st' /\
+    s_ncalls st' = (s_ncalls s + nsg ev)%nat.
+Proof.
+  intros S i c s evn g kn en o n HS (Hcfg & Hex & Hcl & Hopen) (Hfo & Hb & Ho & Hn & HoS & Hfin & Hseq & Hsyn0).
+  unfold asm_body. cbn [h_closed h_next h_queue]. rewrite Hcl.
+  destruct en.
+  - (* closed half: the segment is ignored *)
+    eexists. exists [], (GLive kn true). split; [rewrite app_nil_r; reflexivity|].
+    split; [destruct kn as [(?, ?)|]; reflexivity|]. split.
+    + unfold ginv. cbn [set_half s_cfg s_exists s_half h_closed].
+      split; [assumption|]. split; [assumption|]. split; [first [assumption|reflexivity]|]. intros Hc; discriminate.
+    + cbn [set_half s_ncalls nsg filter length]. lia.
+  - specialize (Hopen eq_refl). pose proof Hopen as (Hc0 & Hq & Hkn).
+    destruct kn as [(A, p)|].
+    + destruct Hkn as (Hnx & HA & HpS & Hsv). rewrite Hnx, sq_not_invalid.
+      cbn [v_syn fullv andb]. rewrite Hseq.
+      unfold diffv. cbn [v_diff fullv].
+      pose proof (sok_range _ _ _ _ _ Hsv).
+      rewrite diff_sq by (unfold HIS, HALFW in *; lia).
+      match goal with |- context [set_next ?hh _] => set (h := hh) end.
+      assert (Hh : half_ok S i (Some (A, p)) (set_next h (sq i p))).
+      { unfold half_ok. subst h. cbn [set_next h_closed h_queue h_next h_saved lo_of]. auto 10. }
+      destruct (o - p >? 0) eqn:Eq.
+      * replace (gnote (GLive (Some (A, p)) false) (g_syn g)) with (GLive (Some (A, p)) false) by reflexivity.
+        apply (asm_queue_ok S i c s evn [] (set_next h (sq i p)) (Some (A, p)) o n g); try assumption.
+        cbn [lo_of]. lia.
+      * replace (gnote (GLive (Some (A, p)) false) (g_syn g)) with (GLive (Some (A, p)) false) by reflexivity.
+        apply (asm_inorder_ok S i c s evn [] (set_next h (sq i p)) A p o n g); try assumption. lia.
+    + destruct Hkn as (Hnx & Hsv). rewrite Hnx. replace (INVALID =? INVALID) with true by reflexivity.
+      cbn [andb orb]. rewrite Hfo.
+      destruct (g_syn g) eqn:Esyn.
+      * specialize (Hsyn0 eq_refl). subst o. rewrite Hseq.
+        match goal with |- context [set_next ?hh _] => set (h := hh) end.
+        assert (Hh : half_ok S i (Some (0, 0)) (set_next h (sq i 0))).
+        { unfold half_ok. subst h. cbn [set_next h_closed h_queue h_next h_saved lo_of] in *.
+          rewrite Hsv. cbn [sok]. repeat split; try assumption; try lia. }
+        cbn [gnote].
+        assert (Htg : exists l0, (match h_queue (s_half s) with [] => [] | _ :: _ => [ETag 18] end) = map ETag l0).
+        { destruct (h_queue (s_half s)); [exists []|exists [18]]; reflexivity. }
+        destruct Htg as (l0 & Htg). rewrite Htg.
+        destruct (asm_inorder_ok S i c s evn l0 (set_next h (sq i 0)) 0 0 0 n g) as (st' & ev & g' & H1 & H2 & H3 & H4);
+          try assumption; try lia.
+        exists st', ev, g'. auto.
+      * cbn [orb gnote].
+        match goal with |- context [set_next ?hh _] => set (h := hh) end.
+        assert (Hh : half_ok S i None (set_next h INVALID)).
+        { unfold half_ok. subst h. cbn [set_next h_closed h_queue h_next h_saved lo_of] in *. auto. }
+        rewrite Hseq.
+        apply (asm_queue_ok S i c s evn [] (set_next h INVALID) None o n g); try assumption; cbn [lo_of]; lia.
+Qed.
